@@ -16,9 +16,9 @@ dpkg=./$(dirname $demo)
 # with change: existing tests (demo skipped)
 with_existing=$(go test -vet=off -count=1 -skip 'SeedDemo|TestMicroTask' $pkgs 2>&1 | grep -E "^(ok|FAIL|---)" | tr '\n' ';')
 with_demo=$(go test -vet=off -count=1 -run 'SeedDemo' $dpkg 2>&1 | grep -E "^(ok|FAIL)" | head -1)
-git stash -q -- $(git diff --name-only)
+git apply -R $out/patch.diff
 without_demo=$(go test -vet=off -count=1 -run 'SeedDemo' $dpkg 2>&1 | grep -E "^(ok|FAIL)" | head -1)
-git stash pop -q
+git apply $out/patch.diff
 # run the check against the scratch worktree (which has the change applied); the patch must
 # also apply cleanly to /repo's HEAD. Evidence goes to a scratch directory.
 (cd /repo && git apply --check $out/patch.diff) || { echo "patch does not apply to /repo"; exit 2; }
